@@ -222,7 +222,7 @@ def main():  # noqa: PLR0912, PLR0915
     for e in errors[:10]:
         print("  CHECKER-ERROR", e[:1500])
     if violations:
-        for what, path, tail in violations[:25]:
+        for what, path, tail in violations[:6]:
             print(f"  {what}")
             print(f"VIOLATION property={prop} replay={path}{tail}")
         return 1
